@@ -1,6 +1,11 @@
-HOOK_COMMITS = []
+HOOK_COMMITS = ["df48cf5"]
 NOT_APPLICABLE = {}
 TEXTS = {
+ "C18": {
+  "technique": "property-based testing (rapid): generated content x chunk size x buffer size x write partition x upload lifecycle x read/seek script, model = the byte string and bytes.Reader",
+  "level_text": "Generated search with a model oracle: the uploaded byte string and an in-memory reader. Chunk layout, file record, full download, every read/seek/skip step, suspend/resume offsets and the absence of leftovers after abort/delete/cleanup are compared exactly. The 16 MiB buffer arithmetic is reached by shrinking the buffer through a build-tag guarded hook. Sampling, not proof.",
+  "level_note": "Relies on the verif hook VerifUploadBuffer for small buffers; invalid whence values are not generated.",
+ },
  "C20": {
   "technique": "property-based fuzzing (rapid, plus native coverage-guided go fuzzing through rapid.MakeFuzz in the thorough tier): hostile well-typed inputs against every bsonkit / mongokit / driver entry point with a no-panic, no-hang, engine-still-usable oracle",
   "level_text": "Generated hostile inputs (malformed operator arguments, odd keys and paths, extreme and non-finite numbers, composite ids) fed to the kit-level functions and to the driver API under recover() with a watchdog and a post-call probe write; the thorough tier adds coverage-guided native fuzzing of the same bundle. Millions of calls; sampling, not proof.",
